@@ -359,7 +359,7 @@ func init() {
 			"candidates whose type does not belong to the selected protocol are outside the contract and never generated",
 		},
 		Stages: []*fw.Stage{
-			{Name: "requests", N: q(40000, 1500000), Run: func(c *fw.Case) { c09Case(c, 8, false) }},
+			{Name: "requests", N: q(40000, 3000000), Run: func(c *fw.Case) { c09Case(c, 8, false) }},
 			{
 				// contents that fill exactly 254/255/256 parts (+-1 unit) of one coding: the edge of the part-count limit,
 				// where a candidate must stay usable at 255 parts and must be dropped at 256
